@@ -445,6 +445,11 @@ func (c *regexpSimplifyChecker) walkAlt(alt syntax.Expr) {
 		c.score++
 		c.out.WriteString("[")
 		for _, e := range alt.Args {
+			switch e.Value {
+			case "-", "]":
+				// These are meta chars inside a char class.
+				c.out.WriteString(`\`)
+			}
 			c.out.WriteString(e.Value)
 		}
 		c.out.WriteString("]")
